@@ -390,6 +390,11 @@ def plan(tier, seed):
         specs.append(dict(name="messages-%d" % i, kind="msg", n=nmsg))
     for i in range(4):
         specs.append(dict(name="random-%d" % i, kind="random", n=4000 if tier == "quick" else 40000))
+    # once more with the library's debug tracing switched on
+    specs.append(dict(name="tracing-enc", kind="enc", msgs=chunks[0], tracing=True))
+    specs.append(dict(name="tracing-control", kind="control", tracing=True))
+    specs.append(dict(name="tracing-messages", kind="msg", n=800 if tier == "quick" else 8000, tracing=True))
+    specs.append(dict(name="tracing-random", kind="random", n=1500 if tier == "quick" else 15000, tracing=True))
     return specs
 
 
